@@ -1,6 +1,7 @@
 (* RepairProofs3.v — the association lists of the repair loop, the correspondence between
    the records of the input and of the output, and the 'content loop writing into the
    represented writer. *)
+From MLA Require Import Limit.
 From MLA Require Import Base Stream Blocks Writer Repair RepairSpec RepairPure RepairProofs1 RepairProofs2.
 From Coq Require Import ZifyBool ZifyNat ZifyN.
 Open Scope N_scope.
@@ -137,6 +138,7 @@ Qed.
 Ltac split5 := split; [|split; [|split; [|split]]].
 
 Section Content.
+  Context {LIM : Limit}.
   Variable S : Stream.
   Variable w : bytes.
   Variable R : st S -> N -> Prop.
